@@ -193,19 +193,15 @@ func c06(c *Ctx) {
 					call, ok := unparen(r).(*ast.CallExpr)
 					return ok && (isCallTo(info, call, "slices.Clone") || builtinName(info, call) == "make" || builtinName(info, call) == "append")
 				}))
-				nE, good := 0, true
-				for _, x := range g.Nodes {
-					for _, e := range x.Succs {
-						if edgeImplies(e, func(cnd ast.Expr, pol int) bool {
-							return pol > 0 && ((okVar != nil && sameVar(info, cnd, okVar)) || unparen(cnd) == n.(ast.Expr))
-						}) {
-							nE++
-							if s, _ := g.ReachFromEdge(e, func(y *GNode) bool { return rebinds[y] }); s[g.Exit] {
-								good = false
-							}
-						}
-					}
+				// negative form: from the EnqueueExport call, the exit is reachable without a re-bind only across an edge that implies "not accepted"
+				start := g.NodeOf(n)
+				refused := func(e *GEdge) bool {
+					return edgeImplies(e, func(cnd ast.Expr, pol int) bool {
+						return pol < 0 && ((okVar != nil && sameVar(info, cnd, okVar)) || unparen(cnd) == n.(ast.Expr))
+					})
 				}
+				seenR, _ := g.Reach([]*GNode{start}, func(y *GNode) bool { return rebinds[y] }, refused)
+				nE, good := len(rebinds), !seenR[g.Exit]
 				c.Check(nE > 0 && good, "R4", key, at(ix.M, n.Pos()), "buf = fresh copy on the accepted path",
 					"after the export goroutine was handed buf[:n] the poller keeps writing into the same backing array (records change under the exporter)")
 			}
